@@ -1024,8 +1024,8 @@ func ruleTabDiatonic(c *Ctx) {
 // TAB-LEXNAMES
 
 type lexTables struct {
-	runeToken map[rune]string // single-rune cases of ScanFunc -> token constant name
-	casePos   map[rune]token.Pos
+	runeToken  map[rune]string // single-rune cases of ScanFunc -> token constant name
+	casePos    map[rune]token.Pos
 	symbolExcl string // runes that end a symbol
 	metaExcl   string
 	pos        token.Pos
@@ -1413,8 +1413,8 @@ func ruleTabDefaults(c *Ctx) {
 		if len(rets) == 1 {
 			af := c.affine(fn, rets[0].Results[0])
 			want := map[string]int64{
-				"note.Octave.Semitone(p0.Octave+1)": 1,
-				"note.Name.Semitone(p0.Name)":       1,
+				"note.Octave.Semitone(p0.Octave+1)":       1,
+				"note.Name.Semitone(p0.Name)":             1,
 				"note.Accidental.Semitone(p0.Accidental)": 1,
 			}
 			c.check(af.equal(want, 0), "play.SPN.MIDINoteNumber", c.pos(fn.Pos()), fname(fn), "MIDI number = (octave+1) octaves + letter + accidental", "MIDI number is computed as "+af.String()+", want Octave.Semitone(s.Octave+1) + Name.Semitone(s.Name) + Accidental.Semitone(s.Accidental) (C4 = 60)")
